@@ -304,12 +304,14 @@ Fixpoint loc_pairs (l : list nat) : list (nat * nat) :=
   end.
 Definition sub_pairs (s : subc) : list (nat * nat) := flat_map (fun o => loc_pairs (sloc o)) s.
 
-(* _is_respecting(circuit, location, model, fully): note the pair (location[e0], location[e1]) is
-   looked up as written - it is not re-sorted *)
+(* _is_respecting(circuit, location, model, fully), as of "fix: foreach's model-respecting test
+   accepts a coupling edge in either orientation": every edge e of the circuit's own coupling graph
+   must be an edge of the model as (location[e0], location[e1]) or as (location[e1], location[e0]) *)
 Definition is_respecting (s : subc) (loc : list nat) (m : mmodel) (fully : bool) : bool :=
   forallb (fun o => negb (1 <? arity o) || in_gs m (sg o)) s
   && (negb fully || forallb (fun o => negb (arity o =? 1) || in_gs m (sg o)) s)
-  && forallb (fun e => pair_in (nth (fst e) loc 0, nth (snd e) loc 0) (medges m)) (sub_pairs s).
+  && forallb (fun e => pair_in (nth (fst e) loc 0, nth (snd e) loc 0) (medges m)
+                       || pair_in (nth (snd e) loc 0, nth (fst e) loc 0) (medges m)) (sub_pairs s).
 
 (* _less_than_fn_respecting / _less_than_fn_respecting_fully *)
 Definition f_respecting (fully : bool) (m : mmodel) (fn : subc -> op -> bool) (new : subc) (old : op) : bool :=
